@@ -294,6 +294,8 @@ func main() {
 		{Before: 130, Drain: false, During: 2, ConnClose: "before", Jitter: 1},
 		{Before: 3, Drain: true, During: 2, ConnClose: "before", Jitter: 2},
 		{Before: 2, Drain: true, During: 0, ConnClose: "after", Jitter: 3},
+		{Before: 1, Drain: true, During: 0, ConnClose: "before", Forced: "park-accepted", Jitter: 4},
+		{Before: 0, Drain: false, During: 2, ConnClose: "before", Forced: "park-accepted", Jitter: 5},
 	} {
 		runListener(r, c)
 	}
